@@ -59,6 +59,11 @@ PINNED = {
     "zero_width_gradient_stroke_on_a_filled_shape": '<svg xmlns="http://www.w3.org/2000/svg" viewBox="0 0 40 40"><defs><linearGradient id="rim"><stop offset="0" stop-color="red"/><stop offset="1" stop-color="blue"/></linearGradient></defs><rect width="20" height="20" fill="teal" stroke="url(#rim)" stroke-width="0"/><rect y="22" width="10" height="10" fill="teal" stroke="url(#rim)" stroke-width="0" transform="translate(2 2)"/></svg>',
     "foreign_attribute_declared_on_a_stop": '<svg xmlns="http://www.w3.org/2000/svg" viewBox="0 0 40 40"><defs><linearGradient id="g"><stop xmlns:k="urn:kit" k:locked="true" offset="0" stop-color="red"/><stop offset="1" stop-color="blue"/></linearGradient></defs><rect width="20" height="20" fill="url(#g)"/></svg>',
     "use_of_a_template_inside_a_hidden_group": '<svg xmlns="http://www.w3.org/2000/svg" xmlns:xlink="http://www.w3.org/1999/xlink" viewBox="0 0 40 40"><g display="none"><rect id="tpl" width="10" height="10" fill="red"/><g id="tplg"><rect x="20" width="10" height="10" fill="blue"/></g></g><use xlink:href="#tpl" x="2" y="2"/><use xlink:href="#tplg" y="20"/><g display="none"><use xlink:href="#tpl" x="25" y="25"/></g></svg>',
+    "fill_opacity_above_one": '<svg xmlns="http://www.w3.org/2000/svg" viewBox="0 0 20 20"><rect width="10" height="10" fill="red" fill-opacity="2" opacity="0.4"/><rect x="10" y="10" width="8" height="8" fill="blue" fill-opacity="-1"/></svg>',
+    "fill_and_stroke_under_opacity": '<svg xmlns="http://www.w3.org/2000/svg" viewBox="0 0 40 40"><rect x="10" y="10" width="20" height="20" fill="red" stroke="blue" stroke-width="10" opacity="0.5"/></svg>',
+    "nested_svg_carries_paint": '<svg xmlns="http://www.w3.org/2000/svg" viewBox="0 0 40 40"><svg fill="red" opacity="0.5" width="40" height="40"><rect width="10" height="10"/><rect x="5" y="5" width="10" height="10" fill="blue"/></svg><svg display="none" width="40" height="40"><rect x="20" width="10" height="10"/></svg><rect x="20" y="20" width="5" height="5"/></svg>',
+    "nested_svg_viewbox_equals_viewport_with_offset": '<svg xmlns="http://www.w3.org/2000/svg" viewBox="0 0 100 100"><svg x="10" y="10" width="50" height="50" viewBox="10 10 50 50"><rect x="10" y="10" width="20" height="20"/></svg></svg>',
+    "empty_subpath_changes_gradient_bbox": '<svg xmlns="http://www.w3.org/2000/svg" viewBox="0 0 100 100"><defs><linearGradient id="g"><stop offset="0" stop-color="red"/><stop offset="1" stop-color="blue"/></linearGradient></defs><path d="M0,0 L0,0 M50,50 h40 v40 h-40 z" fill="url(#g)"/></svg>',
     "clip_rule_on_the_clippath": '<svg xmlns="http://www.w3.org/2000/svg" viewBox="0 0 10 10"><clipPath id="c" clip-rule="evenodd"><path d="M0,0 H8 V8 H0 Z M2,2 H6 V6 H2 Z"/></clipPath><rect width="9" height="9" clip-path="url(#c)" fill="red"/></svg>',
     "use_clip_target_transform": '<svg xmlns="http://www.w3.org/2000/svg" xmlns:xlink="http://www.w3.org/1999/xlink" viewBox="0 0 30 30"><clipPath id="c"><rect width="10" height="10"/></clipPath><defs><rect id="t" width="20" height="20" transform="translate(5 0)"/></defs><use xlink:href="#t" clip-path="url(#c)"/></svg>',
     "two_nested_svgs_clip_ids": f'<svg {NS} viewBox="0 0 100 100"><svg x="0" y="0" width="40" height="40"><rect width="60" height="60" fill="red"/></svg><svg x="50" y="50" width="40" height="40"><rect width="60" height="60" fill="blue"/></svg></svg>',
